@@ -1,6 +1,18 @@
 import SieveModel.Model.Lexer
 import SieveModel.Model.Machine
-/-! # C11 — comment-marker lemmas (theorems follow) -/
+import SieveModel.Lemmas.Comments
+/-!
+# C11 — A filter set survives being saved and loaded back
+
+* `hash_comment_is_the_rest_of_the_line`: what is written behind a marker is exactly the comment token.
+* `marker_comments_reach_the_next_top_level_command` (every table, every state, every token): a hash
+  comment is added to the pending comments and nothing else changes; any other token either leaves
+  pending comments and result alone or finishes exactly one top-level command, which is appended to the
+  result carrying exactly the pending comments, after which the pending list is empty.  Hence the name
+  and description markers the factory writes in front of a filter are delivered with that filter's
+  command and with no other.
+The construction and loading logic of `factory.py` is decided by the render → parse → reload oracle.
+-/
 namespace C11
 /-- a hash comment token runs to the end of its line and never beyond: the name / description
     written behind a marker is exactly what the parser hands to the loader -/
@@ -15,4 +27,13 @@ theorem hash_comment_is_the_rest_of_the_line (line rest : Bytes) (h : ∀ c ∈ 
       have : (c != 10) = true := by simpa using hc
       simp [this, ih (fun x hx => h x (by simp [hx]))]
   simp [Lex.one, Lex.single, hs]
+open Machine in
+/-- comments written in front of a top-level command reach that command's node and no other -/
+theorem marker_comments_reach_the_next_top_level_command (T : Table) (s s' : PState) (tok : Tok)
+    (h : deliver T s tok = .ok s') :
+    (tok.kind = .hash_comment ∧ s'.comments = s.comments ++ [stripWs tok.text] ∧ s'.result = s.result) ∨
+    (tok.kind ≠ .hash_comment ∧
+      ((s'.comments = s.comments ∧ s'.result = s.result) ∨
+       (∃ n, s'.result = s.result ++ [n] ∧ Node.comments n = s.comments ∧ s'.comments = []))) :=
+  Comments.deliver_comments T s tok s' h
 end C11
